@@ -24,6 +24,7 @@ import SpsdkVerif.Model.Sdp
 import SpsdkVerif.Generated.SdpConsts
 import SpsdkVerif.Proofs.Sdp
 import SpsdkVerif.Proofs.SdpRefine
+import SpsdkVerif.Proofs.SdpFault
 import SpsdkVerif.Model.MbootProps
 import SpsdkVerif.Generated.MbootProps
 import SpsdkVerif.Proofs.MbootProps
@@ -63,7 +64,12 @@ theorem gen_api_packets_agree :
        ("flash_read_resource", Spec.cFlashReadResource, 0, 3), ("kp_enroll", Spec.cKeyProvisioning, 0, 1),
        ("kp_set_intrinsic_key", Spec.cKeyProvisioning, 0, 3), ("kp_write_nonvolatile", Spec.cKeyProvisioning, 0, 2),
        ("kp_read_nonvolatile", Spec.cKeyProvisioning, 0, 2), ("kp_set_user_key", Spec.cKeyProvisioning, Spec.flagHasDataPhase, 3),
-       ("kp_write_key_store", Spec.cKeyProvisioning, Spec.flagHasDataPhase, 3), ("kp_read_key_store", Spec.cKeyProvisioning, 0, 1)] ∧
+       ("kp_write_key_store", Spec.cKeyProvisioning, Spec.flagHasDataPhase, 3), ("kp_read_key_store", Spec.cKeyProvisioning, 0, 1),
+       ("update_life_cycle", Spec.cUpdateLifeCycle, 0, 1), ("ele_message", Spec.cEleMessage, 0, 5),
+       ("tp_oem_set_master_share", Spec.cTrustProvisioning, 0, 5), ("tp_hsm_enc_blk", Spec.cTrustProvisioning, 0, 9),
+       ("fuse_program", Spec.cFuseProgram, Spec.flagHasDataPhase, 3), ("fuse_read", Spec.cFuseRead, 0, 3)] ∧
+    Generated.MbootConsts.tpApiOperations =
+      [("tp_oem_set_master_share", Spec.tpOemSetMasterShare), ("tp_hsm_enc_blk", Spec.tpHsmEncBlock)] ∧
     Generated.MbootConsts.kpApiOperations =
       [("kp_enroll", Spec.kpEnroll), ("kp_set_intrinsic_key", Spec.kpSetIntrinsicKey), ("kp_write_nonvolatile", Spec.kpWriteNonVolatile),
        ("kp_read_nonvolatile", Spec.kpReadNonVolatile), ("kp_set_user_key", Spec.kpSetUserKey),
@@ -341,7 +347,8 @@ refinement also says that every packet the host sends is no larger than the nego
 Covered: get/set property, fill, erase region/all, read_memory (un-chunked and the UsbDevice chunk loop), write_memory,
 receive_sb_file, execute/call/erase-all-unsecure/configure-memory/reliable-update, key provisioning (enroll, intrinsic key,
 (non)volatile, set user key, write/read key store), flash_read_resource, flash/efuse read once, flash_program_once,
-efuse_program_once with and without verification (locked word ⇒ OTP_VERIFY_FAIL), load_image. -/
+efuse_program_once with and without verification (locked word ⇒ OTP_VERIFY_FAIL), load_image; phase 3: update_life_cycle,
+ele_message, tp_oem_set_master_share, tp_hsm_enc_blk (`Op.logCmd`), fuse_program (data phase), fuse_read (data phase). -/
 
 /-- one operation on the CRC-framed serial link (all data lengths, all packet sizes `0 < mp < 2^16`) -/
 theorem op_refines_serial (h : Host) (d d' : Dev) (op : Op) (res : Except HErr Val) (st : Nat)
@@ -414,6 +421,70 @@ theorem no_fault_refines (ops : List Op) (h : Host) (d d' : Dev) (rs : List (Exc
         obtain ⟨h'', e2, s2⟩ := this
         refine ⟨h'', ?_, s2⟩
         simp only [runOps, e1, e2, st1]
+
+/-! ### phase 3: the commands added to the table (`Op.logCmd`, `Op.fuseProgram`, `Op.fuseRead`)
+
+All theorems of sections 5, 6 and 6b quantify over `Op`, hence over these operations too (silent link, truncation at every
+position, bounded reads, refinement); the statements below spell out what the refinement says for them. -/
+
+/-- the API abbreviations run exactly the packet of the generated `apiPackets` table: tag, no flag, the parameter words in
+    the order of the method's `CmdPacket(...)` call -/
+theorem log_cmds_packets (lc a b c d k n e f : Nat) :
+    runOp (Op.updateLifeCycle lc) = simpleCmd Spec.cUpdateLifeCycle [lc] ∧
+    runOp (Op.eleMessage a b c d) = simpleCmd Spec.cEleMessage [0, a, b, c, d] ∧
+    runOp (Op.tpOemSetMasterShare a b c d) = simpleCmd Spec.cTrustProvisioning [Spec.tpOemSetMasterShare, a, b, c, d] ∧
+    runOp (Op.tpHsmEncBlk a b k c d n e f) = simpleCmd Spec.cTrustProvisioning [Spec.tpHsmEncBlock, a, b, k, c, d, n, e, f] :=
+  ⟨rfl, rfl, rfl, rfl⟩
+
+/-- `update_life_cycle` / `ele_message` / `tp_oem_set_master_share` / `tp_hsm_enc_blk` without faults, both transports: the
+    device received exactly one command with exactly the caller's words (it is appended to the device's command log), the
+    call returns `True` with status SUCCESS -/
+theorem log_cmd_refines (h : Host) (d : Dev) (t : Nat) (ps : List Nat)
+    (hs : Synced h d) (hd : d.OK) (hmps : h.mps = some d.maxPacket) (heda : h.eda = false)
+    (hargs : (Op.logCmd t ps).argsOK)
+    (ht : t = Spec.cUpdateLifeCycle ∨ t = Spec.cEleMessage ∨
+      (t = Spec.cTrustProvisioning ∧ (ps.head? = some Spec.tpOemSetMasterShare ∨ ps.head? = some Spec.tpHsmEncBlock))) :
+    ∃ h', runOp (.logCmd t ps) h = (.ok (.bool true), h') ∧ Synced h' (d.logged t ps) ∧ h'.status = Spec.stSuccess := by
+  have hspec : specOp h.cfg.cmdExc h.cfg.usb d (.logCmd t ps) = some (d.logged t ps, .ok (.bool true), Spec.stSuccess) := by
+    simp only [specOp, if_pos ht]
+  obtain ⟨h', e, s, st, _⟩ := Mboot.op_refines h d _ _ _ _ hs hd hmps heda hargs hspec
+  exact ⟨h', e, s, st⟩
+
+/-- `fuse_program(address, data, mem_id)` without faults, both transports, every length and packet size: the device
+    received the command (address, length, clamped id — recorded) and then exactly `data`, once and in order, in
+    `⌈len/maxPacket⌉` accepted packets; the call returns `True` -/
+theorem fuse_program_refines (h : Host) (d : Dev) (a : Nat) (data : Bytes) (m : Nat)
+    (hs : Synced h d) (hd : d.OK) (hmps : h.mps = some d.maxPacket) (heda : h.eda = false)
+    (hargs : (Op.fuseProgram a data m).argsOK) :
+    ∃ h' d', runOp (.fuseProgram a data m) h = (.ok (.bool true), h') ∧ Synced h' d' ∧ h'.status = Spec.stSuccess ∧
+      d'.sb = data ∧ d'.pktCount = (split d.maxPacket data).length ∧
+      d'.log = d.log ++ [(Spec.cFuseProgram, [a, data.length, clampMemId m])] ∧ d'.mem = d.mem := by
+  obtain ⟨h', e, s, st, _⟩ := Mboot.op_refines h d _ (.fuseProgram a data m) _ _ hs hd hmps heda hargs rfl
+  exact ⟨h', _, e, s, st, rfl, rfl, rfl, rfl⟩
+
+/-- `fuse_read(address, length, mem_id)` without faults: the bytes returned are exactly the device's bytes of the requested
+    range, completely; a range the device refuses gives `None` (or raises `McuBootCommandError`) with the device's status -/
+theorem fuse_read_refines (h : Host) (d : Dev) (a n m : Nat)
+    (hs : Synced h d) (hd : d.OK) (hmps : h.mps = some d.maxPacket) (heda : h.eda = false)
+    (hargs : (Op.fuseRead a n m).argsOK) :
+    ∃ h', Synced h' { d with ncmd := d.ncmd + 1, pktCount := 0 } ∧
+      (a + n ≤ d.resource.length →
+        runOp (.fuseRead a n m) h = (.ok (.bytes ((d.resource.drop a).take n)), h') ∧ h'.status = Spec.stSuccess) ∧
+      (¬ a + n ≤ d.resource.length →
+        runOp (.fuseRead a n m) h = (specFail h.cfg.cmdExc Spec.stMemoryRangeInvalid .none, h') ∧
+          h'.status = Spec.stMemoryRangeInvalid) := by
+  by_cases hc : a + n ≤ d.resource.length
+  · have hspec : specOp h.cfg.cmdExc h.cfg.usb d (.fuseRead a n m) =
+        some ({ d with ncmd := d.ncmd + 1, pktCount := 0 }, .ok (.bytes ((d.resource.drop a).take n)), Spec.stSuccess) := by
+      simp only [specOp, if_pos hc]
+    obtain ⟨h', e, s, st, _⟩ := Mboot.op_refines h d _ _ _ _ hs hd hmps heda hargs hspec
+    exact ⟨h', s, fun _ => ⟨e, st⟩, fun x => absurd hc x⟩
+  · have hspec : specOp h.cfg.cmdExc h.cfg.usb d (.fuseRead a n m) =
+        some ({ d with ncmd := d.ncmd + 1, pktCount := 0 }, specFail h.cfg.cmdExc Spec.stMemoryRangeInvalid .none,
+              Spec.stMemoryRangeInvalid) := by
+      simp only [specOp, if_neg hc]
+    obtain ⟨h', e, s, st, _⟩ := Mboot.op_refines h d _ _ _ _ hs hd hmps heda hargs hspec
+    exact ⟨h', s, fun x => absurd x hc, fun _ => ⟨e, st⟩⟩
 
 /-- `enable_data_abort` after an aborted operation: `receive_sb_file(check_errors=c)` resets it only on normal return -/
 def abortEda (ce : Bool) : Op → Bool
@@ -517,6 +588,50 @@ theorem sdps_reports_deliver (rid size : Nat) (b : Bytes) (hs : 0 < size) :
     ((Sdp.hidFrames rid size b).length = (b.length + size - 1) / size) :=
   Sdp.hidFrames_deliver rid size b hs
 
+/-! ### 7b. SDP fault side and SDPS end-to-end (phase 3; Proofs/SdpFault.lean)
+
+`Sdp.succeeded r`: nothing raised and the value is not `False` (SDP's `status_code` may legitimately be HAB_IS_LOCKED on a
+successful call, so it is not part of SDP's observable success); `Sdp.observable` = (result, status_code, hab_status, every
+byte written). -/
+
+/-- **wrong status word** (write_file / write_dcd / write_csf): `_send_data` returns `True` only if the status word read
+    from the ROM is the OK value of that command — on ANY device→host stream, both transports -/
+theorem sdp_send_data_true_needs_ok (c : Sdp.Cmd) (data : Sdp.Bytes) (h h' : Sdp.Host)
+    (hr : Sdp.sendData c data h = (.ok true, h')) :
+    (c.tag = Sdp.Spec.cWriteFile → h'.cmdStatus = Sdp.Spec.rWriteFileOk) ∧
+    (c.tag = Sdp.Spec.cWriteDcd → h'.cmdStatus = Sdp.Spec.rWriteDataOk) ∧
+    (c.tag = Sdp.Spec.cWriteCsf → h'.cmdStatus = Sdp.Spec.rWriteDataOk) :=
+  Sdp.sendData_true_ok c data h h' hr
+
+/-- **truncated / dropped answer, at EVERY byte position** (`SDPSerialProtocol`): the ROM→host byte stream — whatever it
+    contains — is cut after `k` bytes, for every `k` and every SDP operation: the call is observably the run on the full
+    stream, or it does not report success (it raises `SdpConnectionError`) -/
+theorem sdp_truncation_safe_serial (h : Sdp.Host) (op : Sdp.Op) (k : Nat) (cs : List (List Sdp.Bytes))
+    (htr : h.tr = .serial) (hpeer : h.peer = .script cs) :
+    Sdp.observable (Sdp.runOp op (h.truncate k)) = Sdp.observable (Sdp.runOp op h) ∨
+      ¬ Sdp.succeeded (Sdp.runOp op (h.truncate k)).1 :=
+  Sdp.truncation_safe_serial h op k cs htr hpeer
+
+/-- … and over USB-HID (`SDPBulkProtocol` report framing): the stream is cut after any number of whole reports (dropped
+    reports; a report shorter than a status word makes `CmdResponse.value` raise, see `Sdp.respValue`) -/
+theorem sdp_truncation_safe_hid (h : Sdp.Host) (op : Sdp.Op) (k : Nat) (cs : List (List Sdp.Bytes))
+    (htr : h.tr = .hid) (hpeer : h.peer = .script cs) :
+    Sdp.observable (Sdp.runOp op (h.truncateHid k)) = Sdp.observable (Sdp.runOp op h) ∨
+      ¬ Sdp.succeeded (Sdp.runOp op (h.truncateHid k)).1 :=
+  Sdp.truncation_safe_hid h op k cs htr hpeer
+
+/-- **SDPS.write_file / SDP-over-HID chunking, end to end**: over USB-HID the call writes exactly the command-block reports
+    (unless the family's ROM takes none) followed by the data reports of the family's pack size, nothing else, reads
+    nothing and returns; with `sdps_reports_deliver` the data reports carry the image once and in order -/
+theorem sdps_write_file_delivers (noCmd : Bool) (ps : Nat) (data : Sdp.Bytes) (h : Sdp.Host) (htr : h.tr = .hid)
+    (hps : 0 < ps) (hlen : data.length < 2 ^ 32) :
+    ∃ h', Sdp.runOp (.sdpsWriteFile noCmd ps data) h = (.ok .none, h') ∧ h'.packSize = ps ∧
+      h'.txRev = (Sdp.hidFrames Sdp.Spec.ridData ps data).reverse ++
+                 (if noCmd then [] else (Sdp.hidFrames Sdp.Spec.ridCmd ps (Sdp.cbw data.length)).reverse) ++ h.txRev ∧
+      ((Sdp.hidFrames Sdp.Spec.ridData ps data).map (List.drop 1)).flatten.take data.length = data := by
+  obtain ⟨h', e, p, t⟩ := Sdp.sdpsWriteFile_delivers noCmd ps data h htr hps (by simpa using hlen)
+  exact ⟨h', e, p, t, (Sdp.hidFrames_deliver Sdp.Spec.ridData ps data hps).1⟩
+
 /-! ## 8. property values are decoded as the device sent them (`parse_property_value`, Model/MbootProps.lean) -/
 
 def className : MbootProps.PClass → String × List Nat
@@ -596,6 +711,15 @@ example : specOps false false [.writeMemory 2 [9, 9, 9, 9, 9] 0, .readMemory 0 1
 example : specAbort false { mem := [1, 2, 3, 4, 5, 6], maxPacket := 2, abortAfter := some 1 } 1 (.writeMemory 1 [9, 9, 9, 9] 0) =
     some ({ mem := [1, 9, 9, 4, 5, 6], maxPacket := 2, abortAfter := some 1, ncmd := 1, pktCount := 1 }, .ok (.bool false),
           Spec.stAbortDataPhase) := by decide +kernel
+-- phase 3: the new operations on the example device (hypotheses of `log_cmd_refines` / `fuse_*_refines` are satisfiable)
+example : (Op.tpHsmEncBlk 1 2 0x10 3 4 1 5 6).argsOK := ⟨by decide, by decide, by decide⟩
+example : (Op.fuseProgram 4 [1, 2, 3, 4, 5] 9).argsOK ∧ (Op.fuseRead 0 4 0).argsOK :=
+  ⟨⟨by decide, by decide, by decide⟩, ⟨by decide, by decide, by decide⟩⟩
+example : specOps false false [Op.updateLifeCycle 0x5A, .fuseProgram 4 [1, 2, 3, 4, 5] 9, .fuseRead 1 2 0, .fuseRead 3 9 0]
+      { exDev with resource := [7, 8, 9, 10] } =
+    some ([(.ok (.bool true), 0), (.ok (.bool true), 0), (.ok (.bytes [8, 9]), 0), (.ok .none, 10200)],
+          { exDev with resource := [7, 8, 9, 10], sb := [1, 2, 3, 4, 5], ncmd := 4, pktCount := 0,
+                       log := [(0x18, [0x5A]), (0x14, [4, 5, 0])] }) := by decide +kernel
 example : crc16 [0x31, 0x32, 0x33, 0x34, 0x35, 0x36, 0x37, 0x38, 0x39] = 0x31C3 := by decide +kernel
 -- the ping response of the bootloader reference manual
 example : pingResponse 0x50010300 0 = [0x5A, 0xA7, 0x00, 0x03, 0x01, 0x50, 0x00, 0x00, 0xFB, 0x40] := by decide +kernel
@@ -613,5 +737,14 @@ example : Sdp.specOps false [.writeFile 1 [9, 9], .read 0 3 32] { mem := [1, 2, 
     some ([(.ok (.bool true), 0, Sdp.Spec.rUnlocked), (.ok (.bytes [1, 9, 9]), 0, Sdp.Spec.rUnlocked)],
           { mem := [1, 9, 9], ncmd := 2 }) := by decide
 example : Sdp.Silent {} := ⟨rfl, by simp, [], rfl, by simp⟩
+-- phase 3: hypotheses of the SDP fault theorems are satisfiable; a cut stream raises, the full one succeeds
+example : ({ peer := .script [[Sdp.be 4 Sdp.Spec.rUnlocked, Sdp.be 4 Sdp.Spec.rWriteDataOk]] } : Sdp.Host).tr = .serial ∧
+    (Sdp.runOp (.write 0 1 4 32) { peer := .script [[Sdp.be 4 Sdp.Spec.rUnlocked, Sdp.be 4 Sdp.Spec.rWriteDataOk]] }).1 = .ok (.bool true) ∧
+    (Sdp.runOp (.write 0 1 4 32)
+      (({ peer := .script [[Sdp.be 4 Sdp.Spec.rUnlocked, Sdp.be 4 Sdp.Spec.rWriteDataOk]] } : Sdp.Host).truncate 6)).1 = .error .conn := by
+  decide
+example : (Sdp.sendData ⟨Sdp.Spec.cWriteFile, 0, 0, 2, 0⟩ [1, 2]
+    { peer := .script [[], [Sdp.be 4 Sdp.Spec.rUnlocked, Sdp.be 4 Sdp.Spec.rWriteFileOk]] }).1 = .ok true := by decide
+example : ({ tr := .hid } : Sdp.Host).tr = .hid ∧ (0 : Nat) < 4 ∧ ([1, 2, 3, 4, 5] : Sdp.Bytes).length < 2 ^ 32 := by decide
 
 end SpsdkVerif.C10
